@@ -39,6 +39,7 @@ impl Check for C11 {
         let mut net = gen_net(&mut g, false, false);
         net["yield_pct"] = json!(*g.pick(&[60u64, 100, 100]));
         net["yield_ppm"] = json!(*g.pick(&[150_000u64, 400_000, 800_000]));
+        net["budget_ppm"] = json!(*g.pick(&[0u64, 100_000, 400_000, 900_000]));
         let nt = g.range(2, 6);
         let tasks: Vec<Value> = (0..nt)
             .map(|_| {
